@@ -18,6 +18,7 @@ import (
 	"strings"
 	"sync"
 	"sync/atomic"
+	"syscall"
 	"time"
 
 	"github.com/anishathalye/porcupine"
@@ -469,27 +470,62 @@ var c12Model = porcupine.Model{
 	},
 }
 
-// c12Snapshot runs one short history; it returns the porcupine operations.
-func c12Snapshot(cs *Case, auto bool) {
-	c, r := cs.Ctx, cs.R
-	root := filepath.Join(c.Scratch, sanitize(cs.Name))
-	lower, upper := filepath.Join(root, "a-lower"), filepath.Join(root, "b-upper")
+// c12SnapDirs lays out the two directories of a snapshot history and publishes version 0.
+func c12SnapDirs(root string) (lower, upper string, publish func(int)) {
+	lower, upper = filepath.Join(root, "a-lower"), filepath.Join(root, "b-upper")
 	must(os.MkdirAll(lower, 0o755))
 	must(os.MkdirAll(upper, 0o755))
-	defer os.RemoveAll(root)
 	// static lower file: other kind, must always resolve unchanged
 	static := &specs.Spec{Version: "0.6.0", Kind: "static.org/thing", Devices: []specs.Device{{Name: "s0", ContainerEdits: specs.ContainerEdits{Env: []string{"STATIC=1"}}}}}
 	must(os.WriteFile(filepath.Join(lower, "static.json"), specBytes(static, "json"), 0o644))
 	// and a shadowed definition of the versioned kind with version stamp -8 (no optional devices: -8&7 == 0)
 	must(os.WriteFile(filepath.Join(lower, "shadowed.json"), specBytes(c12VersionSpec(-8), "json"), 0o644))
 	target := filepath.Join(upper, "versioned.json")
-	publish := func(v int) {
+	publish = func(v int) {
 		tmp := filepath.Join(root, fmt.Sprintf("stage-%d", v))
 		must(os.WriteFile(tmp, specBytes(c12VersionSpec(v), "json"), 0o644))
 		must(os.Rename(tmp, target))
 	}
 	publish(0)
-	cache, _ := cdi.NewCache(cdi.WithSpecDirs(lower, upper), cdi.WithAutoRefresh(auto))
+	return
+}
+
+// c12NoWatcherCaches prepares n snapshot scenarios whose auto-refresh cache was
+// created while the process could not open a single descriptor: such a cache has
+// no watcher and rescans on every query. Must run while nothing else in the
+// process opens files (the limit is process-wide).
+func c12NoWatcherCaches(c *Ctx, n int) []*cdi.Cache {
+	roots := make([]string, n)
+	for i := range roots {
+		roots[i] = filepath.Join(c.Scratch, fmt.Sprintf("snap-nowatcher_%d", i))
+		c12SnapDirs(roots[i])
+	}
+	var old syscall.Rlimit
+	must(syscall.Getrlimit(syscall.RLIMIT_NOFILE, &old))
+	lim := old
+	lim.Cur = 0
+	must(syscall.Setrlimit(syscall.RLIMIT_NOFILE, &lim))
+	caches := make([]*cdi.Cache, n)
+	for i := range caches {
+		caches[i], _ = cdi.NewCache(cdi.WithSpecDirs(filepath.Join(roots[i], "a-lower"), filepath.Join(roots[i], "b-upper")), cdi.WithAutoRefresh(true))
+	}
+	must(syscall.Setrlimit(syscall.RLIMIT_NOFILE, &old))
+	return caches
+}
+
+// c12Snapshot runs one short history. pre, if not nil, is an auto-refresh cache
+// without watcher prepared by c12NoWatcherCaches for this case.
+func c12Snapshot(cs *Case, auto bool, pre *cdi.Cache) {
+	c, r := cs.Ctx, cs.R
+	root := filepath.Join(c.Scratch, sanitize(cs.Name))
+	defer os.RemoveAll(root)
+	lower, upper, publish := c12SnapDirs(root)
+	cache := pre
+	if cache == nil {
+		cache, _ = cdi.NewCache(cdi.WithSpecDirs(lower, upper), cdi.WithAutoRefresh(auto))
+	} else if !watcherMissing(cache) {
+		c.Count("nowatcher_caches_that_have_a_watcher", 1)
+	}
 	defer releaseCache(cache)
 	var mu sync.Mutex
 	var ops []porcupine.Operation
@@ -672,6 +708,12 @@ func c12Snapshot(cs *Case, auto bool) {
 		cs.Violation("snapshot", map[string]string{"auto": fmt.Sprint(auto)}, bad[0], map[string]any{"all": bad, "auto": auto, "clients": nclients})
 		return
 	}
+	if pre != nil {
+		// every query of a watcher-less cache rescans: there is no separate refresh
+		// operation to linearize; the no-mixture and monotonicity oracles above decide
+		c.Count("histories_on_watcherless_auto_cache", 1)
+		return
+	}
 	// linearizability of {Publish, Refresh, Read}
 	mu.Lock()
 	hist := append([]porcupine.Operation{}, ops...)
@@ -776,8 +818,17 @@ func checkC12(c *Ctx) {
 	}
 	if c.replayCase == "" || strings.HasPrefix(c.replayCase, "snap") {
 		n := c.pick(300, 6000)
-		c.RunCases("snap-manual", n, 8, func(cs *Case) { c12Snapshot(cs, false) })
-		c.RunCases("snap-auto", n/3, 4, func(cs *Case) { c12Snapshot(cs, true) })
+		// (first, while the process is otherwise idle: see c12NoWatcherCaches)
+		nw := c.pick(60, 600)
+		pre := c12NoWatcherCaches(c, nw)
+		c.RunCases("snap-nowatcher", nw, 4, func(cs *Case) {
+			var i int
+			fmt.Sscanf(cs.Name, "snap-nowatcher:%d", &i)
+			c12Snapshot(cs, true, pre[i])
+		})
+		c.Floor("histories_on_watcherless_auto_cache", 30)
+		c.RunCases("snap-manual", n, 8, func(cs *Case) { c12Snapshot(cs, false, nil) })
+		c.RunCases("snap-auto", n/3, 4, func(cs *Case) { c12Snapshot(cs, true, nil) })
 		c.Floor("histories_linearizable", 100)
 		c.Floor("histories_with_overlapping_clients", 100)
 		c.Floor("reads_with_version", 500)
